@@ -367,7 +367,7 @@ def main(argv):
                     for sd in (1, 2, 3):
                         jobs.append(ex.submit(run_verus_unit, prop, u, workdir, "seed:%d" % sd))
             kfut = None
-            if cfg.get("kani") and not only_unit:
+            if cfg.get("kani") and not only_unit and not os.environ.get("VERIF_SKIP_KANI"):  # (authoring aid: Verus-only stability runs)
                 kfut = ex.submit(kanirun.run_group, prop, cfg["kani"], tier, REPO, VERIF, seed)
             for j in jobs:
                 results.append(j.result())
